@@ -5,46 +5,7 @@ package main
 // generator's internal fields with a reference and so depended on its representation).
 
 import (
-	"go/types"
 	"regexp"
 )
 
 var epochRe = regexp.MustCompile(`@\d+`)
-
-func normName(v AV) string {
-	if v == nil {
-		return "<none>"
-	}
-	switch x := v.(type) {
-	case Zero:
-		return "zero"
-	case Nil:
-		return "nil"
-	case Const:
-		return x.String()
-	}
-	return epochRe.ReplaceAllString(v.String(), "")
-}
-
-// generatorType finds the concrete type returned by seq.Start.
-func (s *seqRT) generatorType() (*types.Named, types.Type) {
-	in := s.interp()
-	fn := s.w.Func(pathSeq, "Start")
-	outs := in.Run(nil, fn, []AV{Sym{Name: "seq", NN: true}}, nil)
-	if len(outs) != 1 || len(outs[0].Ret) != 1 {
-		undecided("cannot determine the concrete iterator type returned by seq.Start")
-	}
-	d, ok := outs[0].Ret[0].(Dyn)
-	if !ok {
-		undecided("seq.Start does not return a value of a known concrete type")
-	}
-	pt, ok := d.T.(*types.Pointer)
-	if !ok {
-		undecided("seq.Start returns a non-pointer concrete type %s", d.T)
-	}
-	nt, ok := pt.Elem().(*types.Named)
-	if !ok {
-		undecided("seq.Start returns an unnamed type")
-	}
-	return nt.Origin(), d.T
-}
